@@ -19,7 +19,7 @@ import (
 func init() { register("C03", checkC03) }
 
 func checkC03(c *core.Ctx) {
-	c.Explainf("C03 (decided clause: spec-table conformance). The reference that shares no code with the repository is a spec table transcribed into the checker from the published Bebop wire format: scalar widths, enum = base integer, string/array/map = u32 count prefix, byte arrays raw, date = 100ns ticks as int64, message = u32(len after prefix) + (u8 index, value)* + 0, union = u32(len of body) + u8 discriminator + body, GUID byte order [3,2,1,0,5,4,7,6,8..15]. Every emitted encoder, decoder and Size() of every explored shape must reduce to the signature the table prescribes; the scalar layout and GUID tables of iohelp are read from its AST. NOT decided: acceptance of every conformant encoding as behaviour; little-endianness is an assumption (native-order unsafe loads).")
+	c.Explainf("C03 (decided clause: spec-table conformance). The reference that shares no code with the repository is a spec table transcribed into the checker from the published Bebop wire format: scalar widths, enum = base integer, string/array/map = u32 count prefix, byte arrays raw, date = 100ns ticks as int64, message = u32(len after prefix) + (u8 index, value)* + 0, union = u32(len of body) + u8 discriminator + body, GUID byte order [3,2,1,0,5,4,7,6,8..15]. Every emitted encoder, decoder and Size() of every explored shape must reduce to the signature the table prescribes; R7: the byte decoders move their cursor past a nested message by 4+len and past a nested union by 5+len, as the format lays them out; the scalar layout and GUID tables of iohelp are read from its AST. NOT decided: acceptance of every conformant encoding as behaviour; little-endianness is an assumption (native-order unsafe loads).")
 	c.Assume("GOARCH is little-endian: iohelp moves scalars with native-order unsafe loads/stores")
 	c.Assume("the wire-format table in internal/genfacts/universe.go and internal/wire/spec.go is a faithful transcription of the published Bebop format")
 	gr := startGen(c)
@@ -44,6 +44,20 @@ func checkC03(c *core.Ctx) {
 			}
 			gr.diffFrames("R3", rf, m, "spec", mf.Items, want)
 			gr.diffBodies("R2", rf, m, "spec", mf.Items, want, true)
+			// R7: a byte decoder reads each value at the offset the format puts it:
+			// after a nested message 4+len bytes on, after a nested union 5+len
+			if m == mBR || m == mBRu {
+				bad := false
+				for _, f := range mf.Fails {
+					if f.Rule == "cursor" {
+						bad = true
+						c.Check("R7", failKey(rf, m, f), anchorPos(gr.p, rf.Spec.Kind, m), false, f.Msg+" — "+rf.where(f.Pos))
+					}
+				}
+				if !bad {
+					c.Check("R7", m+" reads every value at its offset "+bodyKeyAll(rf), anchorPos(gr.p, rf.Spec.Kind, m), true, "")
+				}
+			}
 		}
 		if sz := rf.M[mSZ]; sz.Present {
 			want := wire.SzString(normSzTop(wire.SizeOf(ew)))
@@ -57,7 +71,7 @@ func checkC03(c *core.Ctx) {
 			if rf.Spec.Kind == genfacts.ClsUnion {
 				wantExtra = 1
 			}
-			ok := sr.Lim.Installed && sr.Lim.Extra == wantExtra
+			ok := sr.Lim.Installed && sr.Lim.Extra == wantExtra && len(sr.Lim.ShortReturns) == 0
 			c.Check("R3", "stream limiter N=prefix+K "+frameKey(rf), anchorPos(gr.p, rf.Spec.Kind, mSR), ok,
 				fmt.Sprintf("limiter installed=%v N=prefix+%d, the format needs +%d — %s", sr.Lim.Installed, sr.Lim.Extra, wantExtra, rf.where(sr.Lim.Pos)))
 		}
@@ -135,7 +149,7 @@ func checkFixedSizeTable(c *core.Ctx, gr *genRun) {
 func init() { register("C04", checkC04) }
 
 func checkC04(c *core.Ctx) {
-	c.Explainf("C04 (decided clauses). R1: after a nested record is decoded from buf[at:], the cursor advance must be derived from the input (a consumed count or the length on the wire), never from Size() of the decoded value — a reader that knows fewer fields computes a smaller Size() than what was sent; checked on every emitted UnmarshalBebop/MustUnmarshalBebop of every explored shape by symbolic cursor simulation. R2: the dispatch of every message/union decoder has a default arm that ends decoding without an error (byte path) or drains the bounded region, restores the base reader and returns the latch (stream path). R3: the stream path bounds the body with io.LimitedReader{R: <saved r.Reader>, N: int64(<prefix read>)[+1]}. R4: decoders keep arms for deprecated fields, encoders and Size() omit them. NOT decided: equality of the restricted value on the common fields.")
+	c.Explainf("C04 (decided clauses). R1: after a nested record is decoded from buf[at:], the cursor advance must be derived from the input (a consumed count or the length on the wire), never from Size() of the decoded value — a reader that knows fewer fields computes a smaller Size() than what was sent; checked on every emitted UnmarshalBebop/MustUnmarshalBebop of every explored shape by symbolic cursor simulation; the wire-derived advance is 4+len after a message and 5+len after a union. R2: the dispatch of every message/union decoder has a default arm that ends decoding without an error (byte path) or drains the bounded region, restores the base reader and returns the latch (stream path). R3: the stream path bounds the body with io.LimitedReader{R: <saved r.Reader>, N: int64(<prefix read>)[+1]}. R4: decoders keep arms for deprecated fields, encoders and Size() omit them. NOT decided: equality of the restricted value on the common fields.")
 	gr := startGen(c)
 	if gr == nil {
 		return
@@ -183,7 +197,7 @@ func checkC04(c *core.Ctx) {
 		}
 		if sr := rf.M[mSR]; sr.Present && rf.Spec.Kind != genfacts.ClsStruct {
 			l := sr.Lim
-			ok := l.Installed && l.OKShape && l.PrefixVar != "" && len(l.ReturnsBad) == 0 && len(l.DrainBad) == 0
+			ok := l.Installed && l.OKShape && l.PrefixVar != "" && len(l.ReturnsBad) == 0 && len(l.DrainBad) == 0 && len(l.ShortReturns) == 0
 			c.Check("R3", "stream body bounded by prefix "+frameKey(rf), anchorPos(gr.p, rf.Spec.Kind, mSR), ok,
 				fmt.Sprintf("limiter %+v — %s", l, rf.where(l.Pos)))
 			hasDefault := false
